@@ -57,3 +57,58 @@ Definition moment_state (s s' : state) (k : nat) : state :=
 (* NotificationsSinceHeight called at moment k of the operation *)
 Definition notifs_at_moment (s s' : state) (k : nat) (h : Z) : option (list (Z * Z) * Z) :=
   notifs_since h (moment_state s s' k).
+
+(* ---------- the model's own rollback, stopped at every event ----------
+   [roll_back_moments fuel h s]: the states in which [roll_back fuel h s] is
+   about to emit its 1st, 2nd, ... disconnected event (stores already cut for
+   that block, the event not yet in [events]) — [roll_back] itself with the
+   intermediate states kept.  C19_rollback_moments_refine shows that
+   [moment_state] agrees with it. *)
+Fixpoint roll_back_moments (fuel : nat) (h : Z) (s : state) : list state :=
+  match fuel with
+  | O => []
+  | S f =>
+    let th := tip_height s in
+    if th >? h then
+      match at_h (chain s) th, at_h (chain s) (th - 1) with
+      | Some cur, Some prev =>
+        let s1 := if th <=? zlen (fchain s) - 1
+                  then set_ftip (th - 1) (set_fchain (take (zn th) (fchain s)) s)
+                  else s in
+        let s2 := set_chain (take (zn th) (chain s1)) s1 in
+        s2 :: roll_back_moments f h (add_ev (EDisc (hid cur) th (hid prev)) s2)
+      | _, _ => []
+      end
+    else []
+  end.
+
+(* ---------- NotificationsSinceHeight with a failing header-store read ----------
+   The backlog loop reads the block header store once per height h+1 .. best
+   (BlockHeaders.FetchHeaderByHeight); [fault] = n >= 1 makes the n-th read of
+   the request fail (n = 0: no fault).  The code returns the read error: the
+   answer is an error, never the list read so far. *)
+Fixpoint backlog_loop (c : list header) (fault : Z) (i : Z) (hs : list Z) (acc : list (Z * Z))
+  : option (list (Z * Z)) :=
+  match hs with
+  | [] => Some (reverse acc)
+  | x :: r =>
+    if i =? fault then None
+    else match at_h c x with
+         | Some hd => backlog_loop c fault (i + 1) r ((hid hd, x) :: acc)
+         | None => None
+         end
+  end.
+
+Definition notifs_since_fault (fault : Z) (h : Z) (s : state) : option (list (Z * Z) * Z) :=
+  let best := ftipVar s in
+  if (h =? 0) || (best =? h) then Some ([], best)
+  else if h >? best then None
+  else
+    let hs := map (fun i => h + 1 + Z.of_nat i) (seq 0 (zn (best - h))) in
+    match backlog_loop (chain s) fault 1 hs [] with
+    | Some l => Some (l, best)
+    | None => None
+    end.
+
+Definition notifs_fault_at_moment (s s' : state) (k : nat) (fault h : Z) : option (list (Z * Z) * Z) :=
+  notifs_since_fault fault h (moment_state s s' k).
